@@ -214,6 +214,6 @@ def gen_natural(bound):
 def phases(tier):
     quick = tier == 'quick'
     return [
-        Phase('fault-placements', check_fault, gen=with_rep(gen_faults(3 if quick else 6)), exhaustive=True),
+        Phase('fault-placements', check_fault, gen=SC.with_history(with_rep(gen_faults(3 if quick else 6))), exhaustive=True),
         Phase('natural-faults', check_natural, gen=with_rep(gen_natural(2 if quick else 6)), exhaustive=True),
     ]
